@@ -113,7 +113,7 @@ def runWithConfig (b : Backend) (valid : String → Bool) (compile : String → 
 
 def kindItems : KeyKind → List Item
   | .str => []
-  | .regexp => [(3, "assign", "v5.CheckBanner, err = regexp.Compile(c1p2[0])")]
+  | .regexp => [(3, "assign", "v7.CheckBanner, err = regexp.Compile(c1p2[0])")]
   | .int => [(3, "call", "f2")]
 
 /-- `insert` = f1 (parameters c1p1 = key, c1p2 = values), `getInt` = f2, `getIPList` = f3 -/
@@ -126,32 +126,34 @@ def insertDispatchItems : List Item :=
 
 /-- `words := strings.Fields(line)` is a single-assignment local: the normal form shows its
 definition wherever it is used. -/
-def words : String := "strings.Fields(v7)"
+def words : String := "strings.Fields(v9)"
 
 def loadConfigSkel : List Item :=
   [ (0, "for", "range v1"),
+    (1, "assign", "v2, err ⇐ v3"),
     (1, "guard", "err == nil"), (2, "break", ""),
     (1, "guard", "!errors.Is(err, fs.ErrNotExist)"), (2, "ret", "nil, Errorf(…)"),
     (0, "guard", "v2 == nil"), (1, "ret", "nil, Errorf(…)"),
     (0, "closure", "f1"),
     (1, "closure", "f2"),
-    (2, "guard", "err != nil"), (3, "ret", "v3, Errorf(…)"),
-    (2, "guard", "v3 < 0"), (3, "ret", "0, Errorf(…)"),
-    (2, "ret", "v3, nil"),
+    (2, "guard", "err != nil"), (3, "ret", "v4, Errorf(…)"),
+    (2, "guard", "v4 < 0"), (3, "ret", "0, Errorf(…)"),
+    (2, "ret", "v4, nil"),
     (1, "closure", "f3"),
     (2, "for", "range c1p2"), (3, "guard", "err != nil"), (4, "ret", "nil, Errorf(…)"),
-    (2, "ret", "v4, nil") ] ++
+    (3, "assign", "v5 ⇐ v5, v6"),
+    (2, "ret", "v5, nil") ] ++
   insertDispatchItems ++
-  [ (0, "for", "range v6"),
+  [ (0, "for", "range v8"),
     (1, "if", "!(len(" ++ words ++ ") == 0 || " ++ words ++ "[0][0] == '#')"),
     (2, "guard", "len(" ++ words ++ ") < 3 || " ++ words ++ "[1] != \"=\""), (3, "continue", ""),
-    (2, "guard", "v8[" ++ words ++ "[0]]"), (3, "continue", ""),
+    (2, "guard", "v10[" ++ words ++ "[0]]"), (3, "continue", ""),
     (2, "call", "f1"),
     (2, "guard", "err != nil"), (3, "ret", "nil, err"),
     (0, "for", "range defaultVals"),
-    (1, "if", "!v8[v9]"),
+    (1, "if", "!v10[v11]"),
     (2, "call", "f1"), (2, "guard", "err != nil"), (3, "ret", "nil, err"),
-    (0, "guard", "v5.BaseDir == \"\""), (1, "ret", "nil, Errorf(…)"),
-    (0, "ret", "&v5, nil") ]
+    (0, "guard", "v7.BaseDir == \"\""), (1, "ret", "nil, Errorf(…)"),
+    (0, "ret", "&v7, nil") ]
 
 end NA.Gate.Config
